@@ -9,6 +9,8 @@ Variants == {Base} \cup {Flip(Base, k) : k \in {"hastime", "p", "lc", "groups", 
            \cup {Flip(Flip(Base, "lc"), "p")}
 Next == \E op \in Ops : \E f \in Variants : Invoke(op, f)
 Spec == HInit /\ [][Next]_hvars
+\* under fairness of every individual call the whole kernel set gets compiled
+FairSpec == Spec /\ \A op \in Ops : \A f \in Variants : WF_hvars(Invoke(op, f) /\ compiled' # compiled)
 \* every lazily compiled kernel except the tyx driver (not reachable through an accessor) can be reached
 AllReachable == <>(compiled = LazyKernels \ {"ws2doptvplc_tyx"})
 =============================================================================
